@@ -253,7 +253,8 @@ func (ex *Exec) leafFacts(st *State, l Leaf, t string) []string {
 	case "ref", "iface.ref":
 		if l.Kind == "ref" && l.Typ != nil && len(addressable) > 0 {
 			if pt, ok := l.Typ.Underlying().(*types.Pointer); ok && addressableElem[typeKey(pt.Elem())] {
-				return []string{mkApp("<=", t, ex.get(st, allocKey, SInt))}
+				al := ex.get(st, allocKey, SInt)
+				return []string{mkApp("<=", fmt.Sprintf("(- (* (+ %s 1) %d))", al, len(addressable)), t), mkApp("<=", t, al)}
 			}
 		}
 		return []string{mkApp("<=", "0", t), mkApp("<=", t, ex.get(st, allocKey, SInt))}
@@ -779,6 +780,12 @@ func (fr *Frame) enterLoop(l *Loop, phis []*ssa.Phi, phiEntry map[*ssa.Phi]Val) 
 	for _, c := range invs {
 		g := fr.evalClause(envE, c)
 		ex.addOblig("inv-init", fmt.Sprintf("%d.%s", l.ord, c.Label), ex.prog.pos(blockPos(l.head)), mkImp(fr.cur, g), c.Src)
+	}
+	if fr.top && ex.fc != nil {
+		for _, c := range ex.fc.LoopEntry[l.ord] {
+			g := fr.evalClause(envE, c)
+			ex.addOblig("loop-entry", fmt.Sprintf("%d.%s", l.ord, c.Label), ex.prog.pos(blockPos(l.head)), mkImp(fr.cur, g), c.Src)
+		}
 	}
 	autoE := fr.autoInvariants(l, phiEntry, fr.st)
 	for i, g := range autoE {
